@@ -122,6 +122,15 @@ class DocActions(object):
     self._engine.out_actions.undo.append(actions.ReplaceTableData(*old_data))
     self._engine.out_actions.summary.remove_records(table_id, old_data[1])
     self._engine.out_actions.summary.add_records(table_id, row_ids)
+
+    # Forget the replaced records the way BulkRemoveRecord does. Loading the new data only clears
+    # the stored values, while lookup maps (and so summary tables and whatever else depends on
+    # them) learn that a record is gone from unset() and from its invalidation.
+    for column in table.all_columns.values():
+      for row_id in old_data[1]:
+        column.unset(row_id)
+    self._engine.invalidate_records(table_id, old_data[1])
+
     self._engine.load_table(actions.TableData(table_id, row_ids, column_values))
 
   #----------------------------------------
